@@ -82,6 +82,14 @@ fn emulate(w: &mut World, op: &Op, bps: &mut Vec<BpS>, acc: &mut Acc, depth: &mu
                 }
                 true
             }
+            Op::RunWhile(Pred::DrainAfter(n)) => {
+                evals += 1;
+                if evals == *n {
+                    // what the host took away is gone; what is recorded from here on must all be there
+                    acc.clear();
+                }
+                true
+            }
             Op::RunWhile(Pred::BpAfter(n, b)) => {
                 evals += 1;
                 if evals == *n && !bps.contains(b) {
@@ -435,7 +443,9 @@ pub fn gen_c13(r: &mut Rng, profile: &str) -> MScn {
             6 => s.ops.push(Op::RunWhile(Pred::RegNe(r.below(6) as u8, r.below(8) as u16))),
             7 => s.ops.push(Op::RunWhile(Pred::Count(r.below(30)))),
             8 => {
-                if r.bool() {
+                if r.chance(1, 3) {
+                    s.ops.push(Op::RunWhile(Pred::DrainAfter(1 + r.below(30) as u32)))
+                } else if r.bool() {
                     s.ops.push(Op::RunWhile(Pred::McrAfter(r.below(25) as u32)))
                 } else {
                     s.ops.push(Op::RunWhile(Pred::BpAfter(1 + r.below(20) as u32, if r.bool() { BpS::Pc(0x3000 + r.below(48) as u16) } else { BpS::Reg(r.below(6) as u8, Cmp::Le(r.below(6) as u16)) })))
